@@ -21,6 +21,7 @@ func init() {
 		Assumptions: []string{"the store semantics of nats.go v1.47.0 / nats-server v2.12.2 are trusted, not analysed"},
 		Rules: map[string]string{
 			"R1": "for every type implementing Watcher: a MakeChan or go statement in Updates() is inside a function passed to sync.Once.Do (or guarded by a nil check of the field it initialises), OR no call site of Watcher.Updates lies in a CFG cycle; the implementations must agree",
+			"R3": "in the forwarding goroutine(s) of every Watcher.Updates implementation every send to the adapter's channel is blocking (a plain send or a select without default)",
 			"R2": "each method M of an adapter type wrapping a store object calls exactly one method named M on the wrapped object, passes its own parameters (key, value, rev) in the same positions, and its results flow to the return values",
 		},
 	})
@@ -29,6 +30,37 @@ func init() {
 func checkC14(c *Ctx) {
 	watcherUpdatesRule(c, "R1")
 	adapterForwardingRule(c, "R2")
+	watchForwardingRule(c, "R3")
+}
+
+// watchForwardingRule: the goroutine that forwards watch entries never drops one: every
+// send to the adapter's channel is a blocking send (no select with default around it).
+func watchForwardingRule(c *Ctx, rule string) {
+	m := c.M
+	for _, n := range m.implementers(m.WatcherIface) {
+		up := m.methodOf(n, "Updates")
+		if up == nil {
+			continue
+		}
+		nSend := 0
+		for _, g := range withClosures(up) {
+			eachInstr(g, func(in ssa.Instruction) {
+				switch x := in.(type) {
+				case *ssa.Send:
+					nSend++
+				case *ssa.Select:
+					for _, st := range x.States {
+						if st.Dir == types.SendOnly {
+							nSend++
+							c.check(x.Blocking, rule, "watch entries are forwarded with a blocking send in "+shortFn(g), in,
+								"send inside a select with default: %v (an entry that arrives while the reader is busy is silently dropped: lost deletions, lost takeovers)", !x.Blocking)
+						}
+					}
+				}
+			})
+		}
+		c.check(nSend > 0, rule, "forwarding goroutine of "+n.Obj().Name()+" sends what it receives", firstInstr(up), "%d send sites", nSend)
+	}
 }
 
 // implementers returns the named struct types of the library whose pointer implements iface.
@@ -171,6 +203,38 @@ func adapterForwardingRule(c *Ctx, rule string) {
 					continue
 				}
 				call := fwd[0]
+				// no other operation of the wrapped object (e.g. an unconditional Put next to Update),
+				// and the forwarding call is unconditional
+				var others []string
+				eachInstr(f, func(in ssa.Instruction) {
+					c2, ok := in.(*ssa.Call)
+					if !ok || c2 == call {
+						return
+					}
+					name := ""
+					var recv ssa.Value
+					if c2.Call.IsInvoke() {
+						name, recv = c2.Call.Method.Name(), c2.Call.Value
+					} else if sc := c2.Call.StaticCallee(); sc != nil && sc.Signature.Recv() != nil && len(c2.Call.Args) > 0 {
+						name, recv = sc.Name(), c2.Call.Args[0]
+					}
+					if recv != nil && recvIsFieldOf(recv, f.Params[0]) {
+						others = append(others, name)
+					}
+				})
+				uncond := true
+				for _, b := range liveBlocks(f) {
+					if ret, ok := b.Instrs[len(b.Instrs)-1].(*ssa.Return); ok && b != f.Recover {
+						if !dominatesInstr(call, ret) {
+							uncond = false
+						}
+					}
+				}
+				if len(others) > 0 || !uncond {
+					c.viol(rule, key+" is the only, unconditional store operation", call,
+						"other operations of the wrapped object in this method: %v; the forwarding call dominates every return: %v. A second path (e.g. Put when rev == 0) turns the revision-checked operation into an unconditional write for some inputs.", others, uncond)
+					continue
+				}
 				args := call.Call.Args
 				if !call.Call.IsInvoke() {
 					args = args[1:]
